@@ -114,6 +114,16 @@ func c06Exprs(thorough bool) []string {
 			}
 		}
 	}
+	// a combining call whose FIRST argument is itself a combining call or a multi-select (a temporary the outer call may
+	// be tempted to fill in place - unless the inner call handed back one of its own arguments)
+	for _, in := range []string{"merge(a,b)", "merge(b,a)", "merge(a,a)", "merge(a)", "merge(b)", "not_null(a,b)", "not_null(b)", "{x:a}", "{k:b}", "merge(a,b,a)", "to_array(a)[0]", "[a,b][0]", "[a][0]", "a||b", "b&&a"} {
+		for _, rest := range []string{"@", "a", "b", "{z:`1`}", "a,b", "`{\"z\":1}`"} {
+			add("merge(" + in + "," + rest + ")")
+			add("merge(" + rest + "," + in + ")")
+		}
+		add("merge(" + in + ")")
+		add("[*].merge(" + in + ",@)")
+	}
 	for _, fr := range []*univ.Fragment{univ.CoreFragment(), univ.ProjFragment()} {
 		g := univ.NewGen(fr)
 		for w := 1; w <= 4; w++ {
